@@ -84,32 +84,39 @@ func (t *vc12Impl2) B(a int) int { return vc12pad(a, 100000) }
 const vc12VarOrig = 7
 
 var (
-	vc12Real = &vc12Impl{}
-	vc12IV   vc12If = vc12Real
-	vc12Real2        = &vc12Impl2{}
-	vc12IV2  vc12If2 = vc12Real2
-	vc12Var         = vc12VarOrig // mocked with Builder.Var(&vc12Var)
-	vc12W           = vc12VarOrig // mocked with Builder.UnExportedVar(vc12Self + ".vc12W")
+	vc12Real          = &vc12Impl{}
+	vc12IV    vc12If  = vc12Real
+	vc12Real2         = &vc12Impl2{}
+	vc12IV2   vc12If2 = vc12Real2
+	vc12Var           = vc12VarOrig // mocked with Builder.Var(&vc12Var)
+	vc12W             = vc12VarOrig // mocked with Builder.UnExportedVar(vc12Self + ".vc12W")
 )
 
 // callbacks k0..k3 per signature; result 200000 + 100*k + a
 func vc12k(k, a int) int { return vc12pad(a, 200000+100*k) }
 
+// k0, k1 are distinct function literals; k2, k3 are two closures of ONE literal (a callback factory, as tests write it):
+// same code pointer, different captured k
+func vc12mkFn(k int) func(int) int         { return func(a int) int { return vc12k(k, a) } }
+func vc12mkSt(k int) func(*vc12T, int) int { return func(_ *vc12T, a int) int { return vc12k(k, a) } }
+func vc12mkUm(k int) func(*vc12ucopy, int) int {
+	return func(_ *vc12ucopy, a int) int { return vc12k(k, a) }
+}
+func vc12mkIf(k int) func(*mocker.IContext, int) int {
+	return func(_ *mocker.IContext, a int) int { return vc12k(k, a) }
+}
+
 var vc12FnK = []func(int) int{
-	func(a int) int { return vc12k(0, a) }, func(a int) int { return vc12k(1, a) },
-	func(a int) int { return vc12k(2, a) }, func(a int) int { return vc12k(3, a) },
+	func(a int) int { return vc12k(0, a) }, func(a int) int { return vc12k(1, a) }, vc12mkFn(2), vc12mkFn(3),
 }
 var vc12StK = []func(*vc12T, int) int{
-	func(_ *vc12T, a int) int { return vc12k(0, a) }, func(_ *vc12T, a int) int { return vc12k(1, a) },
-	func(_ *vc12T, a int) int { return vc12k(2, a) }, func(_ *vc12T, a int) int { return vc12k(3, a) },
+	func(_ *vc12T, a int) int { return vc12k(0, a) }, func(_ *vc12T, a int) int { return vc12k(1, a) }, vc12mkSt(2), vc12mkSt(3),
 }
 var vc12UmK = []func(*vc12ucopy, int) int{
-	func(_ *vc12ucopy, a int) int { return vc12k(0, a) }, func(_ *vc12ucopy, a int) int { return vc12k(1, a) },
-	func(_ *vc12ucopy, a int) int { return vc12k(2, a) }, func(_ *vc12ucopy, a int) int { return vc12k(3, a) },
+	func(_ *vc12ucopy, a int) int { return vc12k(0, a) }, func(_ *vc12ucopy, a int) int { return vc12k(1, a) }, vc12mkUm(2), vc12mkUm(3),
 }
 var vc12IfK = []func(*mocker.IContext, int) int{
-	func(_ *mocker.IContext, a int) int { return vc12k(0, a) }, func(_ *mocker.IContext, a int) int { return vc12k(1, a) },
-	func(_ *mocker.IContext, a int) int { return vc12k(2, a) }, func(_ *mocker.IContext, a int) int { return vc12k(3, a) },
+	func(_ *mocker.IContext, a int) int { return vc12k(0, a) }, func(_ *mocker.IContext, a int) int { return vc12k(1, a) }, vc12mkIf(2), vc12mkIf(3),
 }
 
 // distinct function literals of one signature each, as a user writes them when a chain is repeated in a second statement
